@@ -209,11 +209,13 @@ def main(argv):
             rec = json.load(f)
         r = check(rec["scenario"], rec["seed"])
         same = [f for f in r["findings"] if f["rule"] == rec["rule"]]
-        print("replay %s: %s" % (argv[1], "REPRODUCED rule=%s" % rec["rule"] if same else "not reproduced"))
+        print("replay %s: %s" % (argv[1], "REPRODUCED rule=%s%s" % (rec["rule"], common.digest_note(rec, same)) if same else "not reproduced"))
         return 1 if same else 0
     tier = common.tier()
     n = 3000 if tier == "quick" else 150000
     rep = common.Report(PROP)
+    from checks import minimise as _MIN
+    rep.minimiser = lambda f: _MIN.scenario(f, lambda scn, seed: check(scn, seed)) if f.get('kind', 'generated') == 'generated' else f
     items = [("probe", k) for k in sorted(PROBES)] + list(range(n))
     for r in common.run_batch("checks.c07", "run_one", items, {"tier": tier}):
         rep.absorb(r)
